@@ -20,7 +20,7 @@ RULE = ("line sequences generated from a row grammar: valid rows (snapshots: 3 o
         "read_snapshots/read_interactions(keys=True) on clean 3-/4-column files equals parsing the same rows with "
         "every timestamp replaced by its rank. EX = every sequence of <= 3 lines over an 11-line alphabet (thorough). "
         "distinct = distinct (line sequence, reader, delimiter).")
-MIN = {"quick": {"noisy==clean": 10000, "model:has_interaction(u,v,t)": 50000, "typeerror": 1000,
+MIN = {"quick": {"noisy==clean": 4000, "model:has_interaction(u,v,t)": 20000, "typeerror": 1000,
                  "compact_timeslot": 1500, "keys:has_interaction(u,v,t)": 5000},
        "thorough": {"noisy==clean": 200000, "model:has_interaction(u,v,t)": 1000000, "typeerror": 40000,
                     "compact_timeslot": 100000, "keys:has_interaction(u,v,t)": 200000}}
